@@ -130,7 +130,7 @@ func c01Session(path string, plain, serverless bool, bufSize int) (problem strin
 	return
 }
 
-var c01Header = regexp.MustCompile(`REMOTE\|vhost\|\s*\d+\|\d+\|f\.log[.a-z]*\|`)
+var c01Header = regexp.MustCompile(`REMOTE\|vhost\|\s*\d+\|\d+\|(f\.log[.a-z]*|f\.gz\.txt|notes\.zst\.old)\|`)
 
 // c01Aborted runs a cat of a big file and shuts the session down after a few messages
 func c01Aborted(dir string) {
@@ -192,6 +192,16 @@ func TestC01Exact(t *testing.T) {
 			}
 			os.WriteFile(path, zc, 0644)
 		default:
+			// plain files whose names merely contain a compression suffix somewhere: only the END of the name decides
+			switch i % 5 {
+			case 1:
+				path = filepath.Join(dir, "f.gz.txt")
+			case 2:
+				path = filepath.Join(dir, "notes.zst.old")
+			case 3:
+				os.MkdirAll(filepath.Join(dir, "archive.gzip.d"), 0755)
+				path = filepath.Join(dir, "archive.gzip.d", "f.log")
+			}
 			os.WriteFile(path, content, 0644)
 		}
 		config.Server.MaxLineLength = c.M
